@@ -26,3 +26,5 @@ def run(ctx):
         alac.run(ctx, "C06", 96 if q else 960)
         from .. import codecs20       # a table entry of the tree differs from the published one: look for an input that shows it
         codecs20.search(ctx)
+        from .. import querycamp     # interleaved non-audio calls (chunk / string / metadata queries, SFC_CALC_*, …) do not move the audio position
+        querycamp.run(ctx, "C06")
